@@ -877,7 +877,9 @@ impl World {
         }
     }
 
-    /// The concurrent part of a `Par` step: one real thread per operation under the controlled scheduler.
+    /// The concurrent part of a `Par` step: one real thread per role (connection, write half, read half)
+    /// under the controlled scheduler; a role's operations run in the given order on its thread and
+    /// stop at the first one that returns Pending (what a task does).
     fn run_parallel(&mut self, ops: &[Act], sched: &[u8], rec: &mut StepRecord) {
         use super::sched::{controlled, Controller};
         enum PRes {
@@ -888,8 +890,12 @@ impl World {
             DroppedWriter,
             DroppedReader,
         }
+        let role = |a: &Act| match a {
+            Act::Deliver(_) | Act::Spurious | Act::Tick => 0usize,
+            Act::Write(_) | Act::Flush | Act::Shutdown | Act::DropWriter | Act::RepollWriterOtherTask => 1,
+            _ => 2,
+        };
         let handle = tokio::runtime::Handle::current();
-        let ctrl = Controller::new(ops.len(), sched);
         // other-task re-polls come with a new waker identity
         for o in ops {
             match o {
@@ -898,116 +904,156 @@ impl World {
                 _ => {}
             }
         }
-        let written = self.written;
+        let groups: Vec<Vec<Act>> = (0..3).map(|r| ops.iter().filter(|o| role(o) == r).cloned().collect::<Vec<Act>>()).collect();
+        let n_threads = groups.iter().filter(|g| !g.is_empty()).count();
+        let ctrl = Controller::new(n_threads, sched);
+        let written0 = self.written;
         let (w_parked, r_parked) = (self.w_parked, self.r_parked);
         let done = self.done.is_some();
         let (dflag, wflag, rflag) = (self.d.clone(), self.w.clone(), self.r.clone());
-        let mut ep_slot = Some(&mut self.ep);
-        let mut writer_slot = Some(&mut self.writer);
-        let mut reader_slot = Some(&mut self.reader);
-        let mut slots: Vec<Option<Result<PRes, String>>> = (0..ops.len()).map(|_| None).collect();
+        let ep = &mut self.ep;
+        let wslot = &mut self.writer;
+        let rslot = &mut self.reader;
+        let mut out_d: Option<Result<Vec<PRes>, String>> = None;
+        let mut out_w: Option<Result<Vec<PRes>, String>> = None;
+        let mut out_r: Option<Result<Vec<PRes>, String>> = None;
         let outcome = {
             let mut jobs: Vec<Box<dyn FnOnce() + Send + '_>> = vec![];
-            for ((tid, o), slot) in ops.iter().enumerate().zip(slots.iter_mut()) {
-                let ctrl = ctrl.clone();
-                let handle = handle.clone();
-                match o {
-                    Act::Deliver(_) | Act::Spurious | Act::Tick => {
-                        let ep = ep_slot.take().expect("one connection op");
-                        let flag = dflag.clone();
-                        jobs.push(Box::new(move || {
-                            *slot = Some(controlled(&ctrl, tid, &handle, || {
-                                if done {
-                                    return PRes::D(None);
+            let mut tid = 0usize;
+            if !groups[0].is_empty() {
+                let (ctrl, handle, flag, my, slot) = (ctrl.clone(), handle.clone(), dflag.clone(), tid, &mut out_d);
+                tid += 1;
+                let n = groups[0].len();
+                jobs.push(Box::new(move || {
+                    *slot = Some(controlled(&ctrl, my, &handle, || {
+                        let mut res = vec![];
+                        for _ in 0..n {
+                            if done {
+                                res.push(PRes::D(None));
+                                break;
+                            }
+                            flag.take();
+                            let waker: Waker = mk_waker(&flag);
+                            let mut cx = Context::from_waker(&waker);
+                            let r = ep.poll_once(&mut cx).map(|p| p.map(|r| r.map_err(|e| e.to_string())));
+                            let finished = matches!(r, Some(Poll::Ready(_)));
+                            res.push(PRes::D(r));
+                            if finished {
+                                break;
+                            }
+                        }
+                        res
+                    }));
+                }));
+            }
+            if !groups[1].is_empty() {
+                let (ctrl, handle, flag, my, slot) = (ctrl.clone(), handle.clone(), wflag.clone(), tid, &mut out_w);
+                tid += 1;
+                let list = groups[1].clone();
+                jobs.push(Box::new(move || {
+                    *slot = Some(controlled(&ctrl, my, &handle, || {
+                        let mut res = vec![];
+                        let mut written = written0;
+                        for o in &list {
+                            let kind = match o {
+                                Act::Write(n) => Parked::Write(*n),
+                                Act::Flush => Parked::Flush,
+                                Act::Shutdown => Parked::Shutdown,
+                                Act::DropWriter => Parked::No,
+                                _ => w_parked,
+                            };
+                            flag.take();
+                            let waker: Waker = mk_waker(&flag);
+                            let mut cx = Context::from_waker(&waker);
+                            let (r, pending) = match kind {
+                                Parked::No => {
+                                    *wslot = None;
+                                    (PRes::DroppedWriter, true)
                                 }
-                                flag.take();
-                                let waker: Waker = mk_waker(&flag);
-                                let mut cx = Context::from_waker(&waker);
-                                PRes::D(ep.poll_once(&mut cx).map(|p| p.map(|r| r.map_err(|e| e.to_string()))))
-                            }));
-                        }));
-                    }
-                    Act::Write(_) | Act::Flush | Act::Shutdown | Act::RepollWriterOtherTask | Act::DropWriter => {
-                        let wslot = writer_slot.take().expect("one writer op");
-                        let flag = wflag.clone();
-                        let kind = match o {
-                            Act::Write(n) => Parked::Write(*n),
-                            Act::Flush => Parked::Flush,
-                            Act::Shutdown => Parked::Shutdown,
-                            Act::DropWriter => Parked::No,
-                            _ => w_parked,
-                        };
-                        jobs.push(Box::new(move || {
-                            *slot = Some(controlled(&ctrl, tid, &handle, || {
-                                flag.take();
-                                let waker: Waker = mk_waker(&flag);
-                                let mut cx = Context::from_waker(&waker);
-                                match kind {
-                                    Parked::No => {
-                                        *wslot = None;
-                                        PRes::DroppedWriter
+                                Parked::Write(n) => {
+                                    let data: Vec<u8> = (0..n as u64).map(|i| coded(written + i, SALT_EP)).collect();
+                                    let Some(wh) = wslot.as_mut() else { break };
+                                    let r = Pin::new(wh).poll_write(&mut cx, &data).map(|r| r.map_err(|e| e.to_string()));
+                                    if let Poll::Ready(Ok(k)) = &r {
+                                        written += *k as u64;
                                     }
-                                    Parked::Write(n) => {
-                                        let data: Vec<u8> = (0..n as u64).map(|i| coded(written + i, SALT_EP)).collect();
-                                        let wh = wslot.as_mut().expect("writer");
-                                        PRes::Write(n, Pin::new(wh).poll_write(&mut cx, &data).map(|r| r.map_err(|e| e.to_string())))
-                                    }
-                                    Parked::Flush => {
-                                        let wh = wslot.as_mut().expect("writer");
-                                        PRes::Flush(false, Pin::new(wh).poll_flush(&mut cx).map(|r| r.map_err(|e| e.to_string())))
-                                    }
-                                    Parked::Shutdown => {
-                                        let wh = wslot.as_mut().expect("writer");
-                                        PRes::Flush(true, Pin::new(wh).poll_shutdown(&mut cx).map(|r| r.map_err(|e| e.to_string())))
-                                    }
-                                    Parked::Read(_) => unreachable!(),
+                                    let p = !matches!(r, Poll::Ready(Ok(_)));
+                                    (PRes::Write(n, r), p)
                                 }
-                            }));
-                        }));
-                    }
-                    Act::Read(_) | Act::RepollReaderOtherTask | Act::DropReader => {
-                        let rslot = reader_slot.take().expect("one reader op");
-                        let flag = rflag.clone();
-                        let n = match o {
-                            Act::Read(n) => Some(*n),
-                            Act::DropReader => None,
-                            _ => match r_parked {
-                                Parked::Read(n) => Some(n),
-                                _ => Some(1),
-                            },
-                        };
-                        jobs.push(Box::new(move || {
-                            *slot = Some(controlled(&ctrl, tid, &handle, || {
-                                flag.take();
-                                let waker: Waker = mk_waker(&flag);
-                                let mut cx = Context::from_waker(&waker);
-                                match n {
-                                    None => {
-                                        *rslot = None;
-                                        PRes::DroppedReader
-                                    }
-                                    Some(n) => {
-                                        let rh = rslot.as_mut().expect("reader");
-                                        let mut buf = vec![0u8; n.max(1)];
-                                        let mut rb = ReadBuf::new(&mut buf);
-                                        let r = Pin::new(rh).poll_read(&mut cx, &mut rb);
-                                        PRes::Read(n, r.map(|r| r.map(|()| rb.filled().to_vec()).map_err(|e| e.to_string())))
+                                Parked::Flush | Parked::Shutdown => {
+                                    let Some(wh) = wslot.as_mut() else { break };
+                                    let sd = kind == Parked::Shutdown;
+                                    let r = if sd { Pin::new(wh).poll_shutdown(&mut cx) } else { Pin::new(wh).poll_flush(&mut cx) }.map(|r| r.map_err(|e| e.to_string()));
+                                    let p = !matches!(r, Poll::Ready(Ok(_)));
+                                    (PRes::Flush(sd, r), p)
+                                }
+                                Parked::Read(_) => unreachable!(),
+                            };
+                            res.push(r);
+                            if pending {
+                                break;
+                            }
+                        }
+                        res
+                    }));
+                }));
+            }
+            if !groups[2].is_empty() {
+                let (ctrl, handle, flag, my, slot) = (ctrl.clone(), handle.clone(), rflag.clone(), tid, &mut out_r);
+                let list = groups[2].clone();
+                jobs.push(Box::new(move || {
+                    *slot = Some(controlled(&ctrl, my, &handle, || {
+                        let mut res = vec![];
+                        for o in &list {
+                            let n = match o {
+                                Act::Read(n) => Some(*n),
+                                Act::DropReader => None,
+                                _ => match r_parked {
+                                    Parked::Read(n) => Some(n),
+                                    _ => Some(1),
+                                },
+                            };
+                            flag.take();
+                            let waker: Waker = mk_waker(&flag);
+                            let mut cx = Context::from_waker(&waker);
+                            match n {
+                                None => {
+                                    *rslot = None;
+                                    res.push(PRes::DroppedReader);
+                                    break;
+                                }
+                                Some(n) => {
+                                    let Some(rh) = rslot.as_mut() else { break };
+                                    let mut buf = vec![0u8; n.max(1)];
+                                    let mut rb = ReadBuf::new(&mut buf);
+                                    let r = Pin::new(rh).poll_read(&mut cx, &mut rb);
+                                    let r = r.map(|r| r.map(|()| rb.filled().to_vec()).map_err(|e| e.to_string()));
+                                    let stop = !matches!(&r, Poll::Ready(Ok(b)) if !b.is_empty());
+                                    res.push(PRes::Read(n, r));
+                                    if stop {
+                                        break;
                                     }
                                 }
-                            }));
-                        }));
-                    }
-                    _ => unreachable!("checked by enabled()"),
-                }
+                            }
+                        }
+                        res
+                    }));
+                }));
             }
             super::sched::run_jobs(jobs, || ctrl.drive())
         };
-        let results: Vec<Result<PRes, String>> = slots.into_iter().map(|s| s.unwrap_or_else(|| Err("thread produced no result".into()))).collect();
         if let Some(d) = &outcome.deadlock {
             rec.panicked = Some(format!("deadlock between the connection and the stream halves: {d}"));
         }
         rec.sched = Some(outcome);
         // bookkeeping, exactly as for the sequential actions
+        let mut results: Vec<Result<PRes, String>> = vec![];
+        for o in [out_d, out_w, out_r].into_iter().flatten() {
+            match o {
+                Ok(list) => results.extend(list.into_iter().map(Ok)),
+                Err(e) => results.push(Err(e)),
+            }
+        }
         for r in results {
             match r {
                 Err(p) => {
@@ -1163,17 +1209,18 @@ impl World {
                     Act::Read(_) | Act::DropReader | Act::RepollReaderOtherTask => Some(2),
                     _ => None,
                 };
-                let mut seen = [false; 3];
+                // one connection action; up to two consecutive actions of each half (a task that continues)
+                let mut count = [0usize; 3];
                 for o in ops {
                     match role(o) {
-                        Some(r) if !seen[r] => seen[r] = true,
-                        _ => return false,
+                        Some(r) => count[r] += 1,
+                        None => return false,
                     }
                     if !self.enabled(o) {
                         return false;
                     }
                 }
-                ops.len() >= 2
+                count[0] <= 1 && count[1] <= 2 && count[2] <= 2 && count.iter().filter(|c| **c > 0).count() >= 2
             }
         }
     }
